@@ -59,8 +59,11 @@ type c09wsTunnel struct {
 }
 
 type c09wsScenario struct {
-	Tunnels []*c09wsTunnel `json:"tunnels"`
-	Table   string         `json:"table"`
+	// EOFWithData: the connections' Read returns the last bytes of a stream together with io.EOF when the
+	// FIN has arrived before those bytes were read (legal for an io.Reader; crypto/tls does it)
+	EOFWithData bool           `json:"read_returns_last_bytes_with_eof,omitempty"`
+	Tunnels     []*c09wsTunnel `json:"tunnels"`
+	Table       string         `json:"table"`
 }
 
 // "halfclose" is the client half-closing first, "upstream-halfclose" its mirror (see c09Gen in proxy/tcp).
@@ -206,6 +209,7 @@ func c09wsGen(g *simcore.Tape, thorough bool) *c09wsScenario {
 		sc.Tunnels = append(sc.Tunnels, t)
 	}
 	sc.Table = table.String()
+	sc.EOFWithData = g.Chance(35)
 	return sc
 }
 
@@ -230,6 +234,7 @@ func runC09ws(r *simcore.Run) {
 	cfg.GlobCacheSize = 100
 	cfg.Proxy.DialTimeout = 30 * time.Second
 	e := h2NewEnv(r, cfg, sc.Table)
+	e.net.EOFWithData = sc.EOFWithData
 	peers := simpeer.NewGroup(r, e.net)
 	defer func() {
 		peers.Stop()
@@ -270,6 +275,13 @@ func runC09ws(r *simcore.Run) {
 	}
 	for _, t := range sc.Tunnels {
 		c09wsCheck(r, t)
+		// reads of fabio's two connection ends that returned the tail of a stream together with io.EOF
+		if c := t.cl.Conn(); c != nil && c.Peer() != nil {
+			r.ProbeN("ws_fabio_read_data_with_eof_c2u", c.Peer().EOFWithDataReads())
+		}
+		if c := t.up.Conn(); c != nil && c.Peer() != nil {
+			r.ProbeN("ws_fabio_read_data_with_eof_u2c", c.Peer().EOFWithDataReads())
+		}
 	}
 }
 
